@@ -176,7 +176,7 @@ fn fb_words(maxlen: usize) -> Vec<Vec<u8>> {
 }
 
 // scripts with nth / len; tokens: F B L N<k>
-const SCRIPTS: &[&str] = &["L", "N0 L", "N1 F L", "F N1 B L", "B N0 L", "N2 L", "N5 L F", "F B L", "B B N1 L"];
+const SCRIPTS: &[&str] = &["L", "N0 L", "N1 F L", "F N1 B L", "B N0 L", "N2 L", "N5 L F", "F B L", "B B N1 L", "R0 L", "R1 B L", "F R1 F L", "R2 L F", "N1 R1 L", "R5 L B"];
 
 fn run_deque<I, T, F>(mk: &dyn Fn() -> I, ident: F, exact: bool, out: &mut String)
 where
@@ -214,6 +214,10 @@ where
                 b'N' => {
                     let n: usize = tok[1..].parse().unwrap();
                     write!(out, "{}", it.nth(n).map(|x| ident(&x)).unwrap_or(-1)).unwrap()
+                }
+                b'R' => {
+                    let n: usize = tok[1..].parse().unwrap();
+                    write!(out, "{}", it.nth_back(n).map(|x| ident(&x)).unwrap_or(-1)).unwrap()
                 }
                 b'L' => {
                     if exact {
@@ -416,6 +420,7 @@ fn dump_doc(idx: &str, flags: &str, input: &str, opt: ParsingOptions, doc: &Docu
         }
         push_name(None, "absent");
         push_name(Some(roxmltree::NS_XML_URI), "lang");
+        push_name(None, "");
         for node in doc.descendants() {
             for ns in node.namespaces() {
                 let p = ns.name().map(|s| s.to_string());
@@ -581,7 +586,11 @@ fn dump_doc(idx: &str, flags: &str, input: &str, opt: ParsingOptions, doc: &Docu
                 };
                 s.push(c);
                 s.push(if a == b { '1' } else { '0' });
-                s.push(if a.partial_cmp(b) == Some(a.cmp(b)) { '.' } else { '!' });
+                // partial_cmp and the four comparison operators (PartialOrd's provided methods can be overridden) agree with cmp; != is the negation of ==
+                let c0 = a.cmp(b);
+                use std::cmp::Ordering::{Greater, Less};
+                let ops_ok = (a < b) == (c0 == Less) && (a <= b) == (c0 != Greater) && (a > b) == (c0 == Greater) && (a >= b) == (c0 != Less) && (a != b) == !(a == b);
+                s.push(if a.partial_cmp(b) == Some(c0) && ops_ok { '.' } else { '!' });
             }
         }
         writeln!(o, "{}", s).unwrap();
@@ -623,6 +632,35 @@ fn dump_doc(idx: &str, flags: &str, input: &str, opt: ParsingOptions, doc: &Docu
                 let y = d1.get_node(x.id());
                 if y.map(|y| y == x && y.node_type() == x.node_type() && y.tag_name() == x.tag_name() && y.text() == x.text()).unwrap_or(false) {
                     ok_rt += 1;
+                }
+            }
+        }
+        // nodes reached through nth_back() / rev().skip() on the descendants of EVERY node (subtrees that do not start at the
+        // root): each must be the node forward iteration delivers at that place, and round-trip through get_node
+        for sub in d1.descendants().take(40) {
+            let fw: Vec<Node> = sub.descendants().collect();
+            let t = fw.len();
+            let good = |x: Node, pos: usize| -> bool {
+                let y = d1.get_node(x.id());
+                pos < t && x == fw[pos] && x.id() == fw[pos].id()
+                    && y.map(|y| y == x && y.node_type() == x.node_type() && y.tag_name() == x.tag_name() && y.text() == x.text()).unwrap_or(false)
+            };
+            for k in 0..3usize {
+                let mut it = sub.descendants();
+                if let Some(x) = it.nth_back(k) {
+                    if good(x, t - 1 - k) {
+                        ok_rt += 1;
+                    }
+                }
+                for (j, x) in sub.descendants().rev().skip(k).take(2).enumerate() {
+                    if good(x, t - 1 - k - j) {
+                        ok_rt += 1;
+                    }
+                }
+                if let Some(x) = it.next_back() {
+                    if t >= k + 2 && good(x, t - 2 - k) {
+                        ok_rt += 1;
+                    }
                 }
             }
         }
